@@ -152,16 +152,6 @@ theorem errSorted_of_pairwise {l : List FieldErr} (h : l.Pairwise (fun a b => er
 
 /-! ### from the loops to the returned `*Error` -/
 
-/-- the field errors of a result (`nil` has none) -/
-def fieldsOf : Option Result → List FieldErr
-  | some r => r.fields
-  | none => []
-
-/-- `Truncated` of a result (`nil` is not truncated) -/
-def truncOf : Option Result → Bool
-  | some r => r.truncated
-  | none => false
-
 /-- the groups the partial loop adds: per leaf within the field limit, the errors of its own rule -/
 def partialGroups (mk : Opts → Path → Viol → FieldErr) (leaves : List Path) (own : Path → List Viol)
     (o : Opts) : List (List FieldErr) :=
